@@ -36,10 +36,10 @@ func newRxGram(reduced bool) *rxGram {
 		s    string
 		min0 bool
 	}
-	g.quants = []q{{"*", true}, {"+", false}, {"?", true}, {"{2}", false}, {"{1,}", false}, {"{1,2}", false}, {"*?", true}, {"+?", false}, {"??", true}, {"{1,2}?", false}}
+	g.quants = []q{{"*", true}, {"+", false}, {"?", true}, {"{2}", false}, {"{1,}", false}, {"{1,2}", false}, {"*?", true}, {"+?", false}, {"??", true}, {"{1,2}?", false}, {"{2}?", false}, {"{1,}?", false}}
 	if reduced {
 		g.atoms = []string{"a", "b", ".", "[^a]", `\1`, `\k<n>`}
-		g.quants = []q{{"*", true}, {"+", false}, {"?", true}, {"{1,2}", false}, {"*?", true}, {"+?", false}}
+		g.quants = []q{{"*", true}, {"+", false}, {"?", true}, {"{1,2}", false}, {"*?", true}, {"+?", false}, {"{2}?", false}}
 	}
 	return g
 }
